@@ -36,10 +36,13 @@ type gnode struct {
 	port   int
 	id     [20]byte
 	silent bool
-	respID [20]byte
-	token  *string
-	nbrs   []cand // what it lists
-	both   bool   // split the list over Nodes and Nodes6
+	// answers without identifying itself as a responder (the reply has no usable `id`): the contacts it
+	// lists are candidates all the same
+	nodesOnly bool
+	respID    [20]byte
+	token     *string
+	nbrs      []cand // what it lists
+	both      bool   // split the list over Nodes and Nodes6
 }
 
 func (g *gnode) key() string { return hx(g.ip) + "/" + itoa(g.port) }
@@ -322,6 +325,7 @@ func (r *Run) newTravScen(i int) *travScen {
 			}
 		}
 		g.silent = r.rng.Intn(6) == 0
+		g.nodesOnly = !g.silent && r.rng.Intn(9) == 0
 		g.respID = g.id
 		switch r.rng.Intn(8) {
 		case 0:
@@ -364,7 +368,7 @@ func (r *Run) newTravScen(i int) *travScen {
 			if j > 0 && hx(g.ip) == hx(list[j-1].ip) {
 				g.ip = r.randIP(0)
 			}
-			g.silent, g.respID, g.both = false, g.id, false
+			g.silent, g.respID, g.both, g.nodesOnly = false, g.id, false, false
 			tk := fmt.Sprintf("tok%d", j)
 			g.token = &tk
 		}
@@ -611,11 +615,13 @@ func (t *travScen) release(key string, p *parkedQ) {
 	var res traversal.QueryResult
 	rid, data, nodes, nodes6 := "-", "-", []cand{}, []cand{}
 	if g != nil && !g.silent {
-		res.ResponseFrom = &krpc.NodeInfo{ID: g.respID, Addr: p.addr}
-		rid = hx(g.respID[:])
-		if g.token != nil {
-			res.ClosestData = *g.token
-			data = hx([]byte(*g.token))
+		if !g.nodesOnly {
+			res.ResponseFrom = &krpc.NodeInfo{ID: g.respID, Addr: p.addr}
+			rid = hx(g.respID[:])
+			if g.token != nil {
+				res.ClosestData = *g.token
+				data = hx([]byte(*g.token))
+			}
 		}
 		if g.both {
 			for i, c := range g.nbrs {
@@ -638,7 +644,7 @@ func (t *travScen) release(key string, p *parkedQ) {
 		t.learned = append(t.learned, g.nbrs...)
 		// truth for C02: a responder that passes both filters
 		passData := !t.needData || g.token != nil
-		if !t.rej[hx(p.addr.IP)] && !t.rejID[hx(g.respID[:])] && passData {
+		if !g.nodesOnly && !t.rej[hx(p.addr.IP)] && !t.rejID[hx(g.respID[:])] && passData {
 			t.responders[hx(g.respID[:])+"/"+key] = respRec{g.respID, p.addr.IP, p.addr.Port, g.token}
 		}
 	}
